@@ -549,3 +549,14 @@ def decision_table(fa, atoms: List[tuple], observe: Callable, loop=None) -> Dict
         fw.open_tests = open_tests          # tests reached on a live path that the assignment does not decide
         table[bits] = observe(fw, events)
     return table
+
+
+def ret_canons_plain(fa) -> List[str]:
+    """ret_canons without seeing through in-package callees (the callee's name is what the rule is about)."""
+    sym = fa.sym
+    old = sym.inliner
+    sym.inliner = None
+    try:
+        return [sym.canon(r.value) for r in returns_in(fa) if r.value is not None]
+    finally:
+        sym.inliner = old
